@@ -411,6 +411,9 @@ type Contract struct {
 	ThisAlias bool
 	LikeResults []string
 	InvCuts  map[string][]SExpr // "Type/label" -> cuts used when proving that type invariant clause in this function
+	// OnSend: conditions that must hold at every channel send executed by the function
+	// (the value sent is bound to "sent", the channel to "sentch")
+	OnSend []Clause
 }
 
 type PredDef struct {
@@ -560,7 +563,7 @@ func (db *ContractDB) loadFile(path, pkgPrefix string) {
 				}
 				cur.Props[w] = true
 			}
-			if kind == "extern" || cur.Props["trusted"] || strings.HasPrefix(key, "fieldfunc:") || strings.HasPrefix(key, "functype:") {
+			if kind == "extern" || cur.Props["trusted"] || strings.HasPrefix(key, "fieldfunc:") || strings.HasPrefix(key, "functype:") || strings.HasPrefix(key, "paramfunc:") {
 				cur.Trusted = true
 			}
 			if _, dup := db.Funcs[key]; dup {
@@ -682,6 +685,16 @@ func (db *ContractDB) loadFile(path, pkgPrefix string) {
 				cur.Requires = append(cur.Requires, c)
 			} else {
 				fail(l.n, "requires outside contract")
+			}
+		case strings.HasPrefix(t, "onsend "):
+			c, ok := clause(l.n, strings.TrimSpace(t[7:]))
+			if !ok {
+				continue
+			}
+			if cur != nil {
+				cur.OnSend = append(cur.OnSend, c)
+			} else {
+				fail(l.n, "onsend outside contract")
 			}
 		case strings.HasPrefix(t, "ensures "):
 			c, ok := clause(l.n, strings.TrimSpace(t[8:]))
@@ -862,6 +875,12 @@ func canonFuncKey(name, pkg, kind string) string {
 			n = pkg + "." + n
 		}
 		return "functype:" + n
+	}
+	if strings.HasPrefix(name, "paramfunc:") {
+		// paramfunc:<function>.<param>: contract of a function-typed parameter
+		n := strings.TrimPrefix(name, "paramfunc:")
+		i := strings.LastIndex(n, ".")
+		return "paramfunc:" + canonFuncKey(n[:i], pkg, "func") + n[i:]
 	}
 	if strings.HasPrefix(name, "fieldfunc:") {
 		n := strings.TrimPrefix(name, "fieldfunc:")
